@@ -585,15 +585,19 @@ func VerifC10AppPageNoParams() {
 }
 
 // a third account updates or deletes an app it created (the account may be opted
-// in to it in the database or in the deltas). Quick: the account has one record.
+// in to it in the database or in the deltas); the account itself has one record.
+// Quick: K <= 1, thorough: K <= 2.
 //
 //verif:harness prop=C10 reach=done,third,two,deltaonly,overridden,nocreator,dbhasmore,shortpage unwind=12 budget=330 thorough.budget=3600
 func VerifC10AppPageThird() {
-	second := []int{verifC10AppOff}
-	if vr.Param(0, 1) == 1 {
-		second = []int{verifC10AppOff, verifC10AppL, verifC10AppLx, verifC10AppC}
-	}
-	verifC10AppRun(vr.Param(1, 2), 2, []int{verifC10AppOff, verifC10AppL, verifC10AppLx, verifC10AppC}, second, true, false)
+	verifC10AppRun(vr.Param(1, 2), 2, []int{verifC10AppOff, verifC10AppL, verifC10AppLx, verifC10AppC}, []int{verifC10AppOff}, true, false)
+}
+
+// the third account's record next to TWO records of the account (thorough only, K <= 1)
+//
+//verif:harness prop=C10 tier=thorough reach=done,third,two,deltaonly,createdonly,createdbelowoptin,overridden,nocreator,dbhasmore,shortpage unwind=12 budget=3600
+func VerifC10AppPageThirdTwo() {
+	verifC10AppRun(1, 2, []int{verifC10AppL, verifC10AppC}, []int{verifC10AppL, verifC10AppLx, verifC10AppC}, true, false)
 }
 
 // a database that is behind the tracker is refused; a reader error is passed on;
